@@ -7,7 +7,8 @@ CONSTANTS MaxChunks,   \* chunks per recording
           StartTicks,  \* first tick of a recording: indices into StartTick (cfg files cannot hold negative numbers)
           Gaps,        \* tick gaps
           SnapSizes,   \* compressed sizes of snapshots / deltas (realised by the harness)
-          MsgCodes     \* messages: 4 * compressed size + (length mod 4) (realised by the harness)
+          MsgCodes,    \* messages: 4 * compressed size + (length mod 4) (realised by the harness)
+          WideCodes    \* messages by varint width class: 16 * (4 * compressed size + length mod 4) + class 1..15
 
 Hdr(i) ==
   CASE i = 1 -> [a |-> "new", nv |-> 0, mn |-> 0, ts |-> 0, kind |-> "client", sha |-> FALSE, map |-> 0,
@@ -31,11 +32,15 @@ NTick == /\ n < Limit
               ELSE \E s \in StartTicks : Step([a |-> "tick", t |-> StartTick(s), kf |-> kf])
 NSnap == /\ n < Limit
          /\ \E k \in {"snapshot", "delta"}, s \in SnapSizes :
-              Step([a |-> "data", kind |-> k, id |-> n + 1, csize |-> s, m4 |-> 0])
+              Step([a |-> "data", kind |-> k, id |-> n + 1, csize |-> s, m4 |-> 0, w |-> 0])
 NMsg == /\ n < Limit
         /\ \E c \in MsgCodes :
-              Step([a |-> "data", kind |-> "message", id |-> n + 1, csize |-> c \div 4, m4 |-> c % 4])
-Next == NNew \/ NTick \/ NSnap \/ NMsg
+              Step([a |-> "data", kind |-> "message", id |-> n + 1, csize |-> c \div 4, m4 |-> c % 4, w |-> 0])
+NWide == /\ n < Limit
+         /\ \E c \in WideCodes :
+              Step([a |-> "data", kind |-> "message", id |-> n + 1, csize |-> (c \div 16) \div 4,
+                    m4 |-> (c \div 16) % 4, w |-> c % 16])
+Next == NNew \/ NTick \/ NSnap \/ NMsg \/ NWide
 Spec == Init /\ [][Next]_vars
 
 \* every step on its own: the reader returns the chunk just written, no error, no warning
